@@ -495,12 +495,50 @@ def r5_index_passes_agree(repo=None):
         raise AnalysisError("digital_rf_create_rf_data_index: row counters not recognised (count pass %s, fill pass %s)" % (
             sorted(inc1), sorted(inc2)))
     (v1, n1), (v2, n2) = list(inc1.items())[0], list(inc2.items())[0]
-    f1 = cbool.disj([cbool.path_condition(n, loops[0]) for n in n1])
-    f2 = cbool.disj([cbool.path_condition(n, loops[1]) for n in n2])
+
+    def loop_counter(loop):
+        """(name, first value) of the block counter of a `for (c = k; ...; c++)` loop"""
+        init = loop.children[0] if loop.children else None
+        name, first = None, None
+        for x in (init.walk() if init is not None else []):
+            if x.kind == "BinaryOperator" and x.opcode == "=" and x.children[0].path() and x.children[1].intval() is not None:
+                name, first = x.children[0].path(), x.children[1].intval()
+            elif x.kind == "VarDecl" and x.children and x.children[-1].intval() is not None:
+                name, first = x.name, x.children[-1].intval()
+        return name, first
+
+    def rename(f, frm):
+        if f[0] == "atom":
+            return ("atom", "<block>") if f[1] == frm else f
+        return (f[0],) + tuple(rename(x, frm) if isinstance(x, tuple) else x for x in f[1:])
+
+    def pass_predicate(loop, var, inside, region):
+        """row predicate of one pass as a function of the block number: rows added in the loop (for blocks >= the loop's first
+        value) or, for the first block, by statements outside the loop in the pass's region"""
+        cname, first = loop_counter(loop)
+        if cname is None or first not in (0, 1):
+            raise AnalysisError("digital_rf_create_rf_data_index: block loop `%s` not of the form for (c = 0|1; ...)" % norm(loop.nsrc)[:50])
+        parts = []
+        for n in inside:
+            f = rename(cbool.path_condition(n, loop), cname)
+            parts.append(("and", ("atom", "<block>"), f) if first == 1 else f)
+        lo, hi = region
+        outside = [n for n in fn.walk() if ((n.kind == "UnaryOperator" and n.opcode == "++") or (n.kind == "CompoundAssignOperator" and n.opcode == "+="))
+                   and n.children[0].path() == var and lo <= n.begin < hi and not (loop.begin <= n.begin <= loop.end)]
+        for n in outside:
+            if first == 0:
+                raise AnalysisError("digital_rf_create_rf_data_index: `%s` is also counted outside its loop" % var)
+            f = cbool.path_condition(n, fn)
+            parts.append(("and", ("not", ("atom", "<block>")), f))
+        if first == 1 and not outside:
+            raise AnalysisError("digital_rf_create_rf_data_index: the loop over `%s` starts at 1 and no row for the first block is found" % cname)
+        return cbool.disj(parts), parts
+    f1, parts1 = pass_predicate(loops[0], v1, n1, (fn.begin, loops[1].begin if loops[0].begin < loops[1].begin else fn.end))
+    f2, parts2 = pass_predicate(loops[1], v2, n2, (loops[0].end, fn.end))
     same, wit = cbool.equivalent(f1, f2)
     # the increments of one pass must be mutually exclusive (one row per block at most), else counts differ from the predicate
     def exclusive(ns, loop):
-        fs = [cbool.path_condition(n, loop) for n in ns]
+        fs = parts1 if loop is loops[0] else parts2
         for i in range(len(fs)):
             for j in range(i + 1, len(fs)):
                 eq, _ = cbool.equivalent(("and", fs[i], fs[j]), ("false",))
